@@ -2,6 +2,6 @@
    ExtrOcamlBasic only; no Extract Constant / Extract Inductive of our own.
    C10 and C11 share the model, so both extract the same functions. *)
 From Coq Require Import ExtrOcamlBasic.
-From SV Require Import Lib.Bytes Lib.ExtractBase Lib.DgramLib Model.Chan Model.Dgram Gen.Consts.
+From SV Require Import Lib.Bytes Lib.ExtractBase Lib.DgramLib Model.Chan Model.Dgram Model.DgramSys Gen.Consts.
 Extraction "c10_model.ml" extract_anchor cstep sstep c_init s_init dgram_hdr split3 undec dec
-  all_fixed as_found fcmd_code.
+  all_fixed as_found fcmd_code ystep_fx y_init.
